@@ -56,7 +56,7 @@ impl Cfg {
 #[derive(Clone, Debug, Serialize, Deserialize, PartialEq)]
 pub enum Act {
     /// replica r (through `actor`, normally r) generates an op from its current state and applies it
-    Gen { r: usize, actor: u8, cmd: (u8, u8, u8), old: usize },
+    Gen { r: usize, actor: u8, cmd: Cmd, old: usize },
     /// deliver (or re-deliver, if already known) op (author, seq) to r
     Deliver { r: usize, author: usize, seq: usize },
     Merge { r: usize, s: usize },
@@ -267,7 +267,7 @@ impl<S: Sut> World<S> {
                 };
                 self.sh.next_op_id = self.ops.len();
                 let sh_backup = self.sh.clone();
-                let Some(g) = self.reps[r].gen(*actor, *cmd, &mut self.sh, &old_state) else {
+                let Some(g) = self.reps[r].gen(*actor, cmd, &mut self.sh, &old_state) else {
                     self.sh = sh_backup;
                     return Ok(false);
                 };
@@ -1042,8 +1042,9 @@ impl<S: Sut> World<S> {
             if r < self.cfg.nrep {
                 let mut sh1 = self.sh.clone();
                 let mut sh2 = self.sh.clone();
-                let g1 = self.reps[r].gen(r as u8, (3, 1, 4), &mut sh1, &self.reps[r]);
-                let g2 = self.shadows[i].1.gen(r as u8, (3, 1, 4), &mut sh2, &self.shadows[i].1);
+                let probe = S::random_cmd(&mut crate::rng::Rng::new(self.ops.len() as u64), &self.sh);
+                let g1 = self.reps[r].gen(r as u8, &probe, &mut sh1, &self.reps[r]);
+                let g2 = self.shadows[i].1.gen(r as u8, &probe, &mut sh2, &self.shadows[i].1);
                 if g1.map(|g| dump(&g.op)) != g2.map(|g| dump(&g.op)) {
                     return Err(self.v("shadow", self.know[r], format!("replica r{r} and its restored shadow generate different ops")));
                 }
